@@ -46,3 +46,51 @@ def call(fn, *a, **kw):
 
 def exc_str(ex):
     return "%s: %s" % (type(ex).__name__, str(ex)[:200])
+
+
+def deep_state(obj, max_depth=6, _seen=None, _depth=0, ndigits=9):
+    """Canonical JSON-able image of *everything* reachable from obj's instance dictionaries
+    (hidden caches included), so that state keys never merge two states with different futures.
+    Objects are numbered in visiting order; floats rounded to `ndigits` significant digits."""
+    import hashlib
+    if _seen is None:
+        _seen = {}
+    if obj is None or isinstance(obj, (bool, int, str)):
+        return obj
+    if isinstance(obj, float):
+        return float("%.*g" % (ndigits, obj)) if obj == obj and abs(obj) != float("inf") else str(obj)
+    if isinstance(obj, (np.integer,)):
+        return int(obj)
+    if isinstance(obj, (np.floating,)):
+        return deep_state(float(obj), ndigits=ndigits)
+    if isinstance(obj, np.ndarray):
+        with np.errstate(all="ignore"):
+            if obj.dtype.kind in "fc":
+                a = np.array([float("%.*g" % (ndigits, x)) if np.isfinite(x) else 0.0 for x in obj.astype(float).ravel()])
+            else:
+                a = obj.ravel()
+            return ["nd", list(obj.shape), hashlib.sha1(repr(a.tolist()).encode()).hexdigest()[:16]]
+    if _depth > max_depth:
+        return "<deep>"
+    oid = id(obj)
+    if isinstance(obj, (list, tuple)):
+        return [deep_state(x, max_depth, _seen, _depth + 1, ndigits) for x in obj]
+    if isinstance(obj, (set, frozenset)):
+        return ["set"] + sorted((deep_state(x, max_depth, _seen, _depth + 1, ndigits) for x in obj), key=repr)
+    if isinstance(obj, dict):
+        return {str(k): deep_state(v, max_depth, _seen, _depth + 1, ndigits) for k, v in obj.items()}
+    if hasattr(obj, "__dict__"):
+        if oid in _seen:
+            return ["ref", _seen[oid]]
+        _seen[oid] = len(_seen)
+        d = {"__class__": type(obj).__name__, "__n__": _seen[oid]}
+        for k, v in vars(obj).items():
+            d[k] = deep_state(v, max_depth, _seen, _depth + 1, ndigits)
+        return d
+    return repr(obj)[:80]
+
+
+def state_hash(x):
+    import hashlib
+    import json
+    return hashlib.sha1(json.dumps(x, sort_keys=True, default=str).encode()).hexdigest()[:20]
